@@ -167,7 +167,9 @@ fn main() {
                     let mut cfg = Config::new();
                     // shuttle writes the failing schedule into a directory of its own, so that
                     // exactly one file can be attributed to this run
-                    let tmp_dir = format!("{replay_dir}/.shuttle-{}-{k}-{sched}", std::process::id());
+                    // (shuttle captures the persistence directory of the FIRST runner of a process in a
+                    // `Once`, so it has to be the same directory for every run and must stay in place)
+                    let tmp_dir = format!("{replay_dir}/.shuttle-{}", std::process::id());
                     std::fs::create_dir_all(&tmp_dir).ok();
                     cfg.failure_persistence = FailurePersistence::File(Some(std::path::PathBuf::from(&tmp_dir)));
                     let s = seed.wrapping_mul(1_000_003).wrapping_add(k);
@@ -200,12 +202,12 @@ fn main() {
                         // shuttle persists only the first failing schedule of a process: stop here
                         break;
                     }
-                    std::fs::remove_dir_all(&tmp_dir).ok();
                 }
                 if violations >= 1 {
                     break;
                 }
             }
+            std::fs::remove_dir_all(format!("{replay_dir}/.shuttle-{}", std::process::id())).ok();
             let wall = t0.elapsed().as_secs_f64();
             write_evidence(&out, &tier, seed, wall, violations, &totals, serde_json::json!({"param": 17, "threads": 2 + 17 % 3, "ops_per_thread": 1 + (17 / 3) % 4, "preset_packet_id": 65_535 - ((17 / 12) % 6)}));
             println!("done C11 (threads): {} controlled executions ({} crossed the wrap), {:.1}s, {} violation(s)", EXECUTIONS.load(Ordering::Relaxed), WRAPS.load(Ordering::Relaxed), wall, violations);
